@@ -917,6 +917,49 @@ theorem crash_flushR (C : Crypto) (bs : Array Bytes) (m : Nat) (c : Core) (d : D
     have := rp_durR C bs m c d held ⟨hr, ⟨hf, es, hp, hx⟩, hsize⟩
     exact this
 
+/-- **the header write of the periodic flush torn after `t` bytes** (C07), under the assumption that the checksum rejects
+    the half-written slot: all pages and nodes are written, the oplog still opens to the old header and all entries —
+    a crash image of the same replica state (recovery replays the entries over stores that are ahead) -/
+theorem torn_headerR (C : Crypto) (bs : Array Bytes) (m : Nat) (c : Core) (d : Disk) (held : Nat → Bool) (hf : Header) (es : List Entry)
+    (hr : RepRAt C bs m c d held) (hp : PersistR C c d hf es) (hx : Extra C bs c d hf es) (hsize : bs.size < 2 ^ 62)
+    (off : Nat) (bytes : Bytes) (hop : (Oplog.insertHeader c.header 0 c.oplog.bits false).2.head? = some (.write .oplog off bytes)) (t : Nat)
+    (hcrc : validateLeader (((d.oplog.write off (bytes.take t)).toList.drop off).take Spec.headerSize) = none) :
+    DurR C bs m held ((d.applyAll (c.bitfield.flush.2 ++ c.tree.flush.2)).apply (.write .oplog off (bytes.take t))) c.publicKey c.tree.fork := by
+  have hj1 := Journal.bitfieldFlush_store c.bitfield
+  have hj2 := Journal.treeFlush_store c.tree
+  have hWall : Written c.tree (Crash.flushList c.tree) := ⟨Crash.flushList_mem c.tree hr.mapwf, Crash.flushList_distinct c.tree hr.mapwf⟩
+  have hg := durG_ahead C bs m held c hf es d hr hp hx hsize c.bitfield.dirty (Crash.flushList c.tree) hWall
+  -- the stores after all page and node writes
+  have hd2 : d.applyAll (c.bitfield.flush.2 ++ c.tree.flush.2)
+      = { d with bitfield := writePages c.bitfield d.bitfield c.bitfield.dirty, tree := writeSlots d.tree (Crash.flushList c.tree) } := by
+    have hP : c.bitfield.flush.2 = c.bitfield.dirty.map fun p => SOp.write .bitfield (p * Spec.pageBytes) (c.bitfield.pageBytes p) := rfl
+    rw [Journal.applyAll_append, Crash.flush_journal c.tree, applyAll_tree_writes, hP]
+    have hs : ∀ op ∈ (c.bitfield.dirty.map fun p => SOp.write .bitfield (p * Spec.pageBytes) (c.bitfield.pageBytes p)), op.store = .bitfield := by
+      intro op hop; obtain ⟨p, _, rfl⟩ := List.mem_map.mp hop; rfl
+    have e1 := Persist.applyAll_bitfield_writes c.bitfield d c.bitfield.dirty
+    have e2 := Journal.applyAll_other d _ .tree (fun op hop => by rw [hs op hop]; decide)
+    have e3 := Journal.applyAll_other d _ .data (fun op hop => by rw [hs op hop]; decide)
+    have e4 := Journal.applyAll_other d _ .oplog (fun op hop => by rw [hs op hop]; decide)
+    simp only [Disk.get] at e2 e3 e4
+    generalize d.applyAll (c.bitfield.dirty.map fun p => SOp.write .bitfield (p * Spec.pageBytes) (c.bitfield.pageBytes p)) = dd at *
+    obtain ⟨t1, da1, b1, o1⟩ := dd
+    obtain ⟨t0, da0, b0, o0⟩ := d
+    simp only at e1 e2 e3 e4
+    rw [e1, e2, e3, e4]
+  rw [hd2]
+  generalize hd3 : ({ d with bitfield := writePages c.bitfield d.bitfield c.bitfield.dirty, tree := writeSlots d.tree (Crash.flushList c.tree) } : Disk) = d3 at hg
+  have ho3 : d3.oplog = d.oplog := by rw [← hd3]
+  have hw : d3.apply (.write .oplog off (bytes.take t)) = { d3 with oplog := d3.oplog.write off (bytes.take t) } := by
+    obtain ⟨tt, da, b, o⟩ := d3; rfl
+  rw [hw]
+  have hinv := opinv_torn_header c.oplog d.oplog hf es c.header false t hp.oplog (headerOK_of_shape _ hp.shape) off bytes hop hcrc
+  refine ⟨c, hf, es, ⟨?_, ?_, replays_congr C c d3 _ hf es hg.replay rfl rfl, hg.bfSize, hg.dirty, hg.shape, hg.hdrLen, hg.hdrFork, hg.hdrSig,
+    hg.hdrSigLen, hg.keys, extra_congr C bs c d3 _ hf es hg.extra rfl rfl, hsize⟩, rfl, rfl⟩
+  · exact reprAt_disk C bs m c d3 _ held hg.rep (fun i => rfl) hg.rep.aligned rfl
+  · show OpImage (d3.oplog.write off (bytes.take t)) hf es
+    rw [ho3]
+    exact opimage_of_inv c.oplog _ hf es hinv
+
 /-! ### an exchange step, cut anywhere -/
 
 /-- **every prefix of the storage operations of an exchange step leaves a crash image of the state before the step
